@@ -1,7 +1,7 @@
 #!/usr/bin/env python3
 """Cross-detection matrix: which property monitors fire on which seeded change.
 
-  matrix.py run [--workers K] [--threads N] [NAME ...]   (all seeded changes when none named)
+  matrix.py run [--workers K] [--threads N] [--base B] [NAME ...]   (all seeded changes when none named)
   matrix.py table
 
 This is self-test tooling, not a registered check. So that it can run while other work uses
@@ -107,7 +107,7 @@ def run_one(name, root, wt, hz, threads, known):
     return res
 
 
-def run(names, workers, threads):
+def run(names, workers, threads, base=0):
     known = open_known()
     names = list(names)
     lock = threading.Lock()
@@ -129,7 +129,7 @@ def run(names, workers, threads):
         finally:
             teardown_worker(k)
 
-    ts = [threading.Thread(target=work, args=(k,)) for k in range(workers)]
+    ts = [threading.Thread(target=work, args=(base + k,)) for k in range(workers)]
     for t in ts:
         t.start()
     for t in ts:
@@ -162,19 +162,21 @@ def main():
         table()
         return 0
     if a[0] == "run":
-        workers, threads = 2, 8
+        workers, threads, base = 2, 8, 0
         names = []
         i = 1
         while i < len(a):
             if a[i] == "--workers":
                 workers = int(a[i + 1]); i += 2
+            elif a[i] == "--base":
+                base = int(a[i + 1]); i += 2
             elif a[i] == "--threads":
                 threads = int(a[i + 1]); i += 2
             else:
                 names.append(a[i]); i += 1
         if not names:
             names = sorted(n for n in os.listdir(SEEDED) if os.path.isdir(os.path.join(SEEDED, n)))
-        run(names, workers, threads)
+        run(names, workers, threads, base)
         return 0
     print(__doc__)
     return 2
